@@ -11,8 +11,17 @@ def git(*args, cwd=".", check=True):
     return r.stdout.decode("utf-8", "replace")
 
 
-def init(cwd="."):
-    git("init", "-q", "-b", "main", cwd=cwd)
+def init(cwd=".", separate=False):
+    """separate=True: the repository data lives outside the work tree and `.git` is a FILE (`gitdir: ...`), as in linked work trees,
+    submodules and `git init --separate-git-dir`."""
+    if separate:
+        store = os.path.abspath(cwd).rstrip("/") + ".gitstore"
+        if os.path.exists(store):
+            shutil.rmtree(store)
+        git("init", "-q", "-b", "main", "--separate-git-dir=" + store, cwd=cwd)
+        assert os.path.isfile(os.path.join(cwd, ".git"))
+    else:
+        git("init", "-q", "-b", "main", cwd=cwd)
     git("config", "user.name", "mc", cwd=cwd)
     git("config", "user.email", "mc@example.invalid", cwd=cwd)
     git("config", "core.quotepath", "true", cwd=cwd)
